@@ -31,6 +31,7 @@ theorem smb1_reply (env : Env) (p m : Bytes) (req : Spec.Smb1Req)
     have hlen : m.length ≥ 35 := by simp at h3; omega
     rw [smb1Message_some (by omega) hfl (by rw [at8_eq_u8, hc]; exact hp)]
     exact ⟨_, rfl, smb1ReplyOk_frame m _ _ h32 (by rw [negBody_length]; omega) (by rw [negBody_length]; omega)
+      (hder := negBody_der env ds)
       (negBody_ok env ds (smb1DialectIndex_lt ds hne)
         (by have := smb1DialectList_length _ _ _ hds; have := le16_lt (m.drop 32) 1; omega)
         (smb1DialectIndex_speaks ds))⟩
@@ -38,7 +39,7 @@ theorem smb1_reply (env : Env) (p m : Bytes) (req : Spec.Smb1Req)
     have hlen : m.length ≥ 59 := by simp at h27; omega
     rw [smb1Message_some (by omega) hfl (by rw [at8_eq_u8, hc]; exact hp)]
     exact ⟨_, rfl, smb1ReplyOk_frame m _ _ h32 (by rw [ssBody_length]; omega) (by rw [ssBody_length]; omega)
-      ssBody_ok⟩
+      ssBody_ok ssBody_der⟩
 
 /-! ### C17.2 SMB2 requests are answered consistently -/
 
